@@ -327,6 +327,23 @@ func streamOps(o *Out, r *rand.Rand, n int, thorough bool) {
 			}
 		}
 	}
+	// one + in the source, evaluated again and again with operands of other kinds (function body, loop body, +=): every evaluation decides anew
+	for _, c := range []struct {
+		src  string
+		want interface{}
+	}{{"func add(x, y) { return x + y }\n[add(1, 2), add(1, 2.5), add(1, \"2\"), add(1, 2)]", []interface{}{int64(3), 3.5, "12", int64(3)}},
+		{"func add(x, y) { return x + y }\n[add(1, \"2\"), add(1, 2), add(1.5, 2), add(\"1\", 2), add(1, 2.5)]", []interface{}{"12", int64(3), 3.5, "12", 3.5}},
+		{"s = 0\nfor v in [1, 2.5] {\ns += v\n}\ns", 3.5}, {"s = 0\nfor v in [1, \"x\", 2] {\ns += v\n}\ns", "1x2"},
+		{"s = 9007199254740993\nfor v in [0, 0.0] {\ns = s + v\n}\ns", 9007199254740992.0}, {"r = []\nfor v in [2, 2.0, \"2\", 2] {\nr += [1 + v]\n}\nr", []interface{}{int64(3), 3.0, "12", int64(3)}},
+		{"func m(x, y) { return x * y }\n[m(2, 3), m(2, 1.5), m(\"ab\", 2), m(2, 3)]", []interface{}{int64(6), 3.0, "abab", int64(6)}},
+		{"func lt(x, y) { return x < y }\n[lt(1, 2), lt(1, 0.5), lt(9007199254740993, 9007199254740992), lt(1, 2)]", []interface{}{true, false, false, true}}} {
+		out := runScript(c.src, nil, nil)
+		o.Sum.Evaluations++
+		o.Sum.Hist["class:operator-node-again"]++
+		if out.panicked || out.err != nil || !sameValue(c.want, out.val) {
+			o.Fail(Failure{Oracle: "go-arithmetic", Key: "operator-node-again", Input: c.src, Detail: fmt.Sprintf("each evaluation by its own operands gives %v; the interpreter gave %v err %v", c.want, out.val, out.err)})
+		}
+	}
 	// chains: a + b + c is (a + b) + c - every + decides between concatenation, float64 and int64 on ITS two operands
 	for _, c := range []struct {
 		src  string
